@@ -66,7 +66,7 @@ func H_C11_filter_only_marginal_repeats() {
 // H_C11_no_repetition_no_regions: a document without repeated text has no header or footer regions, so nothing is removed.
 //
 //symgo:harness prop=C11 kernel=K2-no-repetition real=1
-//symgo:desc 2..3 pages, each with one marginal fragment (symbolic Y within 72 pt of the top or bottom, enumerated) whose text is distinct on every page and non-numeric: Detect returns no regions and FilterFragments returns every page unchanged
+//symgo:desc 2..3 pages, each with one marginal fragment (symbolic Y within 72 pt of the top or bottom, enumerated) whose text is distinct on every page and non-numeric (page 0 may draw its text twice at nearly the same position - a double-struck title is not a repetition across pages): Detect returns no regions and FilterFragments returns every page unchanged
 func H_C11_no_repetition_no_regions() {
 	np := vAnyIntIn(2, 3)
 	texts := []string{"Alpha chapter", "Beta section", "Gamma notes"}
@@ -81,6 +81,10 @@ func H_C11_no_repetition_no_regions() {
 		fr := []text.TextFragment{
 			{Text: texts[p], X: 72, Y: y, Width: 100, Height: 10, FontSize: 10},
 			{Text: "Body paragraph number " + string(rune('a'+p)), X: 72, Y: 400, Width: 300, Height: 10, FontSize: 10},
+		}
+		if p == 0 && vAnyIntIn(0, 1) == 1 {
+			// the same marginal text drawn twice on ONE page (fake bold): still no repetition across pages
+			fr = append(fr, text.TextFragment{Text: texts[p], X: 72.4, Y: y, Width: 100, Height: 10, FontSize: 10})
 		}
 		pages = append(pages, PageFragments{PageIndex: p, PageHeight: 792, PageWidth: 612, Fragments: fr})
 	}
